@@ -70,10 +70,14 @@ def _reuse_case(c):
     key = {"family": name, "oracle_kind": "object_reuse"}
     fails = []
     g = _grid(name, a, b, True)
+    flags = c.get("boundary_flags") or [True] * len(c["requests"])
     for step, (lv, s, e) in enumerate(c["requests"]):
+        # the boundary flag may be switched on the SAME object between requests (public set_boundaries, as Integration does)
+        g.set_boundaries([flags[step]] * d)
+        g.boundary = flags[step]
         g.setCurrentArea(np.array(s, dtype=float), np.array(e, dtype=float), list(lv))
         p1, w1 = g.get_points_and_weights()
-        fresh = _grid(name, a, b, True)
+        fresh = _grid(name, a, b, flags[step])
         fresh.setCurrentArea(np.array(s, dtype=float), np.array(e, dtype=float), list(lv))
         p2, w2 = fresh.get_points_and_weights()
         p1 = np.array([[float(x) for x in p] for p in p1]).reshape(-1, d)
@@ -197,6 +201,16 @@ def cases(tier):
                     out.append({"config": {"kind": "reuse", "family": name, "d": 1, "a": a, "b": b, "requests": [list(x) for x in seq]}})
         for seq in itertools.product(menu2, repeat=2):
             out.append({"config": {"kind": "reuse", "family": name, "d": 2, "a": [0.0, 0.0], "b": [1.0, 1.0], "requests": [list(x) for x in seq]}})
+        if name in ("trapezoidal", "simpson", "clenshaw_curtis"):
+            # same object, boundary flag toggled between requests (levels >= 1; the families whose boundary-off mode is supported)
+            m1 = [r for r in menu1 if r[0][0] >= 1]
+            for seq in itertools.product(m1, repeat=2):
+                for flags in ((True, False), (False, True), (False, False)):
+                    out.append({"config": {"kind": "reuse", "family": name, "d": 1, "a": [0.0], "b": [1.0], "requests": [list(x) for x in seq],
+                                           "boundary_flags": list(flags)}})
+            for seq in itertools.product(menu2, repeat=2):
+                out.append({"config": {"kind": "reuse", "family": name, "d": 2, "a": [0.0, 0.0], "b": [1.0, 1.0], "requests": [list(x) for x in seq],
+                                       "boundary_flags": [True, False]}})
     return out
 
 
